@@ -3,7 +3,9 @@
 # usage: tools/baseline.sh [repo-dir]   (default /repo)
 repo=${1:-/repo}
 log=$(mktemp /tmp/xvc-verif-baseline.XXXXXX)
-(cd "$repo" && cargo nextest run --workspace --no-fail-fast --tool-config-file pb:/w/lib/nextest.toml --profile pb --test-threads 8 --offline --ignore-rust-version > "$log" 2>&1)
+# the tests leave their scratch repositories (xvc-repo-*, ~40 MB each) behind: give them a private temp dir
+tmpd=$(mktemp -d /tmp/xvc-verif-baseline-tmp.XXXXXX)
+(cd "$repo" && TMPDIR="$tmpd" cargo nextest run --workspace --no-fail-fast --tool-config-file pb:/w/lib/nextest.toml --profile pb --test-threads 8 --offline --ignore-rust-version > "$log" 2>&1)
 python3 - "$repo/target/nextest/pb/junit.xml" <<'PY'
 import json, sys
 import xml.etree.ElementTree as ET
@@ -21,5 +23,5 @@ for t in missing[:20]:
 sys.exit(1 if missing else 0)
 PY
 rc=$?
-rm -f "$log"
+rm -f "$log"; chmod -R u+w "$tmpd" 2>/dev/null; rm -rf "$tmpd"
 exit $rc
